@@ -1,6 +1,7 @@
 import MechVerif.Driver.Util
 import MechVerif.Model.Crc
 import MechVerif.Model.Bytecode
+import MechVerif.Model.Loader
 namespace MechVerif.Driver
 open MechVerif.Crc MechVerif.Bytecode
 
@@ -62,9 +63,69 @@ def instrText : Instr → String
 def instrsText (is : List Instr) : String :=
   if is.isEmpty then "-" else ";".intercalate (is.map instrText)
 
+def sortS (l : List String) : List String := (l.toArray.qsort (· < ·)).toList
+
+def hexOfBytesL (l : List Byte) : String := hexOfBytes (ByteArray.mk (l.map (fun b => UInt8.ofNat b.toNat)).toArray)
+
+def utf8Valid (l : List Byte) : Bool := String.validateUTF8 (ByteArray.mk (l.map (fun b => UInt8.ofNat b.toNat)).toArray)
+
+def lerrText : Loader.LErr → String
+  | .short => "err:FileTooShort" | .crc => "err:CrcMismatch" | .io => "err:IoError" | .magic => "err:InvalidMagicNumber"
+  | .unknownType _ => "err:UnknownConstantType" | .utf8 => "err:InvalidUtf8InDict"
+  | .instr .truncated => "err:TruncatedInstruction" | .instr .eof => "err:IoError"
+  | .instr (.invalidOpcode _) => "err:InvalidOpcode" | .instr .fuel => "err:fuel"
+
+/-- keep the last entry of each key (HashMap insertion), then sort the rendered entries -/
+def lastWins {α : Type} (l : List (Nat × α)) : List (Nat × α) :=
+  l.foldl (fun acc p => (acc.filter (fun q => q.1 != p.1)) ++ [p]) []
+
+def loadedText (p : Loader.Loaded) : String :=
+  let h := p.header
+  let hf := ",".intercalate ([hexOfBytesL h.magic] ++ ([h.version, h.mechVer, h.flags, h.regCount, h.instrCount, h.featureCount, h.featureOff,
+    h.typesCount, h.typesOff, h.constCount, h.constTblOff, h.constTblLen, h.constBlobOff, h.constBlobLen, h.symbolsLen, h.symbolsOff,
+    h.instrOff, h.instrLen, h.dictOff, h.dictLen, h.reserved].map toString))
+  let feats := ",".intercalate (p.features.map toString)
+  let types := ";".intercalate (p.types.map (fun t => s!"{t.1}:" ++ (if t.2.isEmpty then "-" else hexOfBytesL t.2)))
+  let consts := ";".intercalate (p.consts.map (fun c => s!"{c.typeId}:{c.enc}:{c.align}:{c.flags}:{c.reserved}:{c.offset}:{c.length}"))
+  -- `symbols` is a map id -> register (the last entry of an id wins); `mutable_symbols` is the set of ids
+  -- that had the flag in any of their entries
+  let syms := ";".intercalate (sortS ((lastWins (p.symbols.map (fun s => (s.1, s.2)))).map (fun s =>
+    s!"{s.1}:{if p.symbols.any (fun t => t.1 == s.1 && t.2.1) then 1 else 0}:{s.2.2}")))
+  let dict := ";".intercalate (sortS ((lastWins p.dict).map (fun d => s!"{d.1}:" ++ (if d.2.isEmpty then "-" else hexOfBytesL d.2))))
+  let instrs := if p.instrs.isEmpty then "" else ";".intercalate (p.instrs.map instrText)
+  s!"ok|H={hf}|F={feats}|T={types}|C={consts}|B=" ++ (if p.blob.isEmpty then "-" else hexOfBytesL p.blob) ++ s!"|S={syms}|I={instrs}|D={dict}"
+
 def runC07 (fields : List String) (obs : String) : String × String × String :=
   let eqv (m : String) := (m, if obs == m then "ok" else "bad:expected " ++ m, "-")
   match fields with
+  | ["load", cls, hx] =>
+    (match bytesOfHex hx with
+     | none => ("bad-case", "bad-case", "-")
+     | some bs =>
+       -- the constant decoder's outcome (V=…) is echoed: only the loader is modelled here
+       let vpart := match obs.splitOn "|V=" with | [_, v] => "|V=" ++ v | _ => ""
+       let model := match Loader.load utf8Valid bs with
+         | .ok p => loadedText p ++ vpart
+         | .error e => lerrText e
+       let verdict :=
+         if obs == "abort" then "bad:the loader aborted the process"
+         else if obs == "hang" then "bad:the loader did not return within 20 s"
+         else if obs.startsWith "panic" then "bad:the loader panicked"
+         else if (obs.splitOn "|V=panic").length > 1 then "bad:the constant decoder panicked"
+         else if obs.endsWith "|V=abort" then "bad:the constant decoder aborted the process"
+         else if obs.endsWith "|V=hang" then "bad:the constant decoder did not return within 20 s"
+         else if cls == "emitted" && !(obs.startsWith "ok|") then "bad:an emitted file was rejected"
+         else if (cls == "flip" || cls == "burst" || cls == "truncated") && obs.startsWith "ok|" then "bad:a damaged file was accepted"
+         else "ok"
+       -- C07-D6: the decoders of string, matrix, set and table constants (`ConstElem::from_le`) panic on a
+       -- payload that is not what the compiler wrote; scalar constants are decoded with explicit size checks
+       let viaFromLe := match Loader.load utf8Valid bs with
+         | .ok p => p.consts.any (fun c => match p.types[c.typeId]? with
+             | some (tag, _) => tag == 15 || (21 ≤ tag && tag ≤ 37) || tag == 42 || tag == 45
+             | none => false)
+         | .error _ => false
+       let region := if verdict == "ok" then "-" else if ((obs.splitOn "|V=panic").length > 1 || obs.endsWith "|V=abort" || obs.endsWith "|V=hang") && viaFromLe then "C07-D6" else "-"
+       (model, verdict, region))
   | ["crc", h] =>
     match bytesOfHex h with
     | some f => eqv (hex8 (crc32 f))
